@@ -8,6 +8,7 @@ func init() {
 			eng := sharedEngine(p)
 			rulesExpansion(p, r, eng)
 			ruleX4(p, r, "X4")
+			ruleP1(p, r, eng)
 		},
 		Trusted: []string{"go/ssa lowering", "the abstract interpreter's shape tables are derived from the node construction sites of the current tree"},
 	})
